@@ -1,7 +1,7 @@
 #![allow(non_camel_case_types, non_snake_case, dead_code)]
 #[tarpc::service]
 pub trait Rej77 {
-    async fn ab(ctx: tarpc::context::Context);
-    async fn serve(a0: i32, a1: String);
+    async fn ab(ctx: tarpc::context::Context) -> String;
+    async fn serve() -> String;
 }
 fn main() {}
